@@ -895,3 +895,28 @@ func execT1(op string, a []string) string {
 func init() {
 	register(&Stream{Name: "T1", Gen: genT1, Exec: execT1})
 }
+
+// Stream T3: a burst of adjacent Ristretto multiscalar requests of 40–60 terms (T1 lines, executed and modelled as such),
+// meant for the 16-goroutine run: scratch space shared between concurrent calls shows as a wrong sum (seed C11-m8).
+func genT3(g *Gen) {
+	for i := 0; !g.Full(); i++ {
+		op := []string{"r.msmvt", "r.msm", "r.msmvt"}[i%3]
+		n := 40 + g.Intn(20)
+		f := []string{"T1", op, itoa(n), itoa(n)}
+		for j := 0; j < n; j++ {
+			f = append(f, hx(t1Scalar(g)))
+		}
+		var base []t1Elem
+		for j := 0; j < n; j++ {
+			if j < 8 || g.Intn(8) == 0 {
+				base = append(base, t1RandElem(g))
+			}
+			f = append(f, hx(base[g.Intn(len(base))].enc))
+		}
+		g.Emit("burst."+op, f...)
+	}
+}
+
+func init() {
+	register(&Stream{Name: "T3", Gen: genT3, Exec: func(op string, a []string) string { return "bad-op" }})
+}
